@@ -302,6 +302,8 @@ async def _default_expect_handler(request: Request) -> None:
             # Reset output_size as we haven't started the main body yet.
             request.writer.output_size = 0
         else:
+            # the value may hold lone surrogates (undecodable request bytes)
+            expect = expect.encode("ascii", "backslashreplace").decode("ascii")
             raise HTTPExpectationFailed(text="Unknown Expect: %s" % expect)
 
 
